@@ -111,7 +111,10 @@ impl ConfigState for GenConfig {
     }
 }
 
-pub struct RandState<'a>(State<'a, GenConfig>);
+/// The configured `value` literals, parsed once before generation starts.
+type ParsedValues = std::collections::HashMap<String, IDLValue>;
+
+pub struct RandState<'a>(State<'a, GenConfig>, &'a ParsedValues);
 impl RandState<'_> {
     pub fn any(&mut self, u: &mut Unstructured, ty: &Type) -> Result<IDLValue> {
         // A type without values (e.g. `type T = record { T }`) never bottoms out. The stack
@@ -130,7 +133,10 @@ impl RandState<'_> {
         }
         if let Some(vec) = &self.0.config.value {
             let v = u.choose(vec)?;
-            let v: IDLValue = super::parse_idl_value(v)?;
+            let v: IDLValue = match self.1.get(v) {
+                Some(v) => v.clone(),
+                None => super::parse_idl_value(v)?,
+            };
             let v = v.annotate_type(true, self.0.env, ty)?;
             self.0.pop_state(old_config, StateElem::Type(ty));
             self.0.update_stats("value");
@@ -294,17 +300,43 @@ pub fn any(
     scope: &Option<Scope>,
 ) -> Result<IDLArgs> {
     let mut u = arbitrary::Unstructured::new(seed);
+    // Parse the configured `value` literals here, where the stack is shallow. They used to be
+    // parsed at every use, i.e. at whatever depth the generator had reached, and the parser needs
+    // more stack than the margin of the recursion guard leaves: a thread whose stack ran out at
+    // the wrong level (e.g. 512 KiB, an uninhabited recursive record, `value` on a leaf type)
+    // overflowed instead of getting "Recursion limit exceeded".
+    let mut parsed = ParsedValues::new();
+    collect_values(&configs.0, &mut parsed);
     let tree = super::configs::ConfigTree::from_configs("random", configs)?;
     let mut args = Vec::new();
     for (i, t) in types.iter().enumerate() {
         let mut state = State::new(&tree, env);
         state.with_scope(scope, i);
-        let mut state = RandState(state);
+        let mut state = RandState(state, &parsed);
         state.0.push_state(&StateElem::Label(&i.to_string()));
         let v = state.any(&mut u, t)?;
         args.push(v);
     }
     Ok(IDLArgs { args })
+}
+
+fn collect_values(table: &toml::Table, out: &mut ParsedValues) {
+    for (k, v) in table {
+        match v {
+            toml::Value::Array(items) if k == "value" => {
+                for item in items {
+                    if let toml::Value::String(s) = item {
+                        // A literal that does not parse is reported where it is used.
+                        if let Ok(v) = super::parse_idl_value(s) {
+                            out.insert(s.clone(), v);
+                        }
+                    }
+                }
+            }
+            toml::Value::Table(t) => collect_values(t, out),
+            _ => (),
+        }
+    }
 }
 
 fn size_helper(env: &TypeEnv, seen: &mut HashSet<String>, t: &Type) -> Option<usize> {
